@@ -50,6 +50,13 @@ RatioLaw(o, c, M1, M2, scale) ==
       x == IF o.type = "weight" THEN c.p ELSE o.p
   IN (c.type # o.type) =>
         Eq(Mul(Mul(x, Sub(One, w)), M1), Mul(Mul(w, Sub(One, x)), M2), Mul(Add(M1, M2), One))
+\* the same law with a RELATIVE yardstick (a trace fraction of 1e-12 is converted as accurately, relatively, as a fraction of 0.3);
+\* cond >= 1 carries the conditioning of 1 - w and 1 - x next to the other end
+RatioLawRel(o, c, M1, M2, cond) ==
+  LET w == IF o.type = "weight" THEN o.p ELSE c.p
+      x == IF o.type = "weight" THEN c.p ELSE o.p
+      lhs == Mul(Mul(x, Sub(One, w)), M1)
+  IN (c.type # o.type) => Eq(lhs, Mul(Mul(w, Sub(One, x)), M2), Mul(lhs, cond))
 \* order is preserved (a below b stays below)
 Monotone(a, b) == Lt(a.p, b.p)
 MonotoneWeak(a, b) == Le(a.p, b.p)
